@@ -1,5 +1,6 @@
 import OV.Model.C17OpsetGen
 import OV.Gen.C17Tables
+import OV.Gen.C17IrMap
 import OV.Drivers.Loop
 /-! Line-protocol driver for C17 (names are `enc` numbers).
     `C17 prep <tok>*`                      tok = `n` (None) | integer            -> `R <tok>*`
@@ -8,6 +9,8 @@ import OV.Drivers.Loop
     `C17 cell <d> <N> <n>`                 -> `ok=<b> mirrors=<b|-> stub=<b|-> agrees=<b>`
     `C17 eager <d> <N> <n> <nargs> <kw>*`  kw = `<name>=<value>`; args are `0 1 2 …` (a `n` in `<nargs>` list form
                                            `a:0,n,2` gives explicit arguments) -> `ERR` | `<key> | <inputs> | <attrs>`
+    `C17 emodel <d> <N> <n> <nargs> <kw>*`  as `eager`, the whole path up to the one-node model (`eagerRun`) -> `ERR` |
+                                           `<op_type> <domain> | <input index|->* | <attrs> | <import d>:<v> | <ir_version> | <i>=<value>*`
     `C17 hist <cmd>*`                      cmd = `N:<cls>:<d>:<v>` | `I:<i>:<n>` | `C:<i>:<n>` | `A:<i>:<n>` (one history from
                                            an empty cache) -> `i<k>:<d>:<v>` | `s<name>,<since>,<dom>` | `s-` | `bT`/`bF` | `E` | `X`
     `C17 conv <declared d:v|-> <opset_version|-> <current> <ev>*`   ev = `c:<d>:<v>` | `i`
@@ -191,6 +194,20 @@ def handle (args : List String) : String :=
         | some node =>
           s!"{node.key.1} {node.key.2.1} {node.key.2.2} | " ++ " ".intercalate (node.inputs.map showOptNat)
             ++ " | " ++ " ".intercalate (node.attrs.map (fun p => s!"{p.1}={showDflt p.2}"))
+    | _, _, _, _, _ => "bad-op"
+  | "emodel" :: d :: N :: n :: a :: kws =>
+    match d.toNat?, N.toNat?, n.toNat?, parseArgs a, kws.mapM parseKw with
+    | some d, some N, some n, some xs, some kw =>
+      match resolve classes d N n with
+      | none => "ERR:nomethod"
+      | some m =>
+        match eagerRun schemas irMap m xs kw with
+        | none => "ERR"
+        | some M =>
+          s!"{M.opType} {M.domain} | " ++ " ".intercalate (M.inputNames.map (fun x => match x with | some i => toString i | none => "-"))
+            ++ " | " ++ " ".intercalate (M.attrs.map (fun p => s!"{p.1}={showDflt p.2}"))
+            ++ s!" | {M.opsetImport.1}:{M.opsetImport.2} | {M.irVersion} | "
+            ++ " ".intercalate (M.feeds.map (fun p => s!"{p.1}={p.2}"))
     | _, _, _, _, _ => "bad-op"
   | _ => "bad-op"
 
